@@ -78,37 +78,61 @@ class TokTables:
         if not isinstance(self.macros, dict) or not isinstance(self.productions, list):
             raise AnalysisError('MACROS/PRODUCTIONS have an unexpected type')
         self.dximage = literal(pm.global_assign('_DXImageTransform'), '_DXImageTransform')
+        # the expansion and compilation steps are evaluated from the source (whatever their shape): the compiled
+        # matchers give the full pattern, the flags and the way a production is applied
+        from sa.absint import Evaluator, Raised, Record
+
         tm = repo.mod('cssutils/tokenize2.py')
-        exp = tm.get('Tokenizer._expand_macros')
-        self.search_re, self.sub_re, self.wrap = expansion_regexes(exp, 'Tokenizer._expand_macros', tm)
-        comp = tm.get('Tokenizer._compile_productions')
-        calls = _re_calls(comp, 're.compile')
-        if len(calls) != 1:
-            raise AnalysisError('Tokenizer._compile_productions: expected one re.compile')
-        c = calls[0]
-        if not (isinstance(c.args[0], ast.BinOp) and isinstance(const(c.args[0].left), str)):
-            raise AnalysisError('Tokenizer._compile_productions: wrapper not a literal % value')
-        self.compile_wrap = c.args[0].left.value
-        self.flags = 0
-        if len(c.args) > 1:
-            self.flags = _flags(c.args[1])
-        par = tm.parents.get(c)
-        if not (isinstance(par, ast.Attribute) and par.attr == 'match'):
-            raise AnalysisError('Tokenizer._compile_productions: productions are no longer applied with .match')
+        self._tm = tm
+        self._me = Record()
+        self._exp = tm.get('Tokenizer._expand_macros')
+        self._comp = tm.get('Tokenizer._compile_productions')
+        probe = self._compile([('X', 'a{nl}b')], {'nl': 'N'})
+        pat = probe[0][1]
+        if not pat.endswith('a(?:N)b') and 'a(?:N)b' not in pat:
+            raise AnalysisError(f'Tokenizer._expand_macros: a macro is not expanded to (?:...) ({pat!r})')
+        self.compile_wrap = pat.replace('a(?:N)b', '%s')
+        self.wrap = '(?:%s)'
+        self.flags = probe[0][2]
         self._nfa = {}
 
-    def expand(self, pattern):
-        if self.wrap != '(?:%s)':
-            raise AnalysisError(f'unexpected macro wrapper {self.wrap!r}')
+    def _compile(self, productions, macros=None):
+        """[(name, full pattern, flags)] of productions, through the source's own expansion and compilation."""
+        from sa.absint import Evaluator, Raised
+
+        macros = self.macros if macros is None else macros
+        exp_params = [a.arg for a in self._exp.args.args][1:]
         try:
-            return rx.expand_macros(pattern, self.macros, self.search_re, self.sub_re)
+            expanded = Evaluator(self._exp, module=self._tm, cls='Tokenizer').run(self=self._me, **dict(zip(exp_params, (macros, list(productions)))))
         except KeyError as e:
             raise AnalysisError(f'macro {e} is undefined')
+        if isinstance(expanded, Raised):
+            if expanded.kind == 'KeyError':
+                raise AnalysisError('a macro that a production uses is undefined')
+            raise AnalysisError(f'Tokenizer._expand_macros: {expanded!r}')
+        comp_params = [a.arg for a in self._comp.args.args][1:]
+        compiled = Evaluator(self._comp, module=self._tm, cls='Tokenizer').run(self=self._me, **{comp_params[0]: expanded})
+        if isinstance(compiled, Raised):
+            raise AnalysisError(f'Tokenizer._compile_productions: {compiled!r}')
+        out = []
+        for name, matcher in compiled:
+            pat = getattr(matcher, '__self__', None)
+            if not isinstance(pat, re.Pattern) or getattr(matcher, '__name__', '') != 'match':
+                raise AnalysisError('Tokenizer._compile_productions: productions are no longer applied with .match of a compiled pattern')
+            out.append((name, pat.pattern, int(pat.flags) & ~int(re.UNICODE) | (int(re.UNICODE) if isinstance(pat.pattern, str) else 0)))
+        return out
+
+    def expand(self, pattern):
+        full = self._compile([('X', pattern)])[0][1]
+        pre, post = self.compile_wrap.split('%s')
+        if not (full.startswith(pre) and full.endswith(post)):
+            raise AnalysisError('Tokenizer._compile_productions: wrapper changed between calls')
+        return full[len(pre):len(full) - len(post)]
 
     def full(self, name):
         for n, p in self.productions:
             if n == name:
-                return self.compile_wrap % self.expand(p)
+                return self._compile([(n, p)])[0][1]
         raise AnalysisError(f'production {name} vanished')
 
     def nfa(self, name):
